@@ -175,6 +175,16 @@ class VerifyService:
                     its_aid_length=0,
                     permissions=b'',
                 )
+            # IEEE 1609.2 §5.2.4.2.3: the generation time SHALL lie within the
+            # validity period of the signing authorization ticket.
+            if not authorization_ticket.is_valid_at(header_info["generationTime"]):
+                return SNVERIFYConfirm(
+                    report=ReportVerify.INVALID_TIMESTAMP,
+                    certificate_id=authorization_ticket.as_hashedid8(),
+                    its_aid=b'',
+                    its_aid_length=0,
+                    permissions=b'',
+                )
             its_aid_bytes = psid.to_bytes(
                 (psid.bit_length() + 7) // 8 or 1, "big")
             verification_key = authorization_ticket.certificate["toBeSigned"]["verifyKeyIndicator"][
